@@ -198,8 +198,18 @@ def gen_cases(seed, chunk, n, tier):
             nontrivial = len(a.blocks) >= 2 or keep < 1.0
         elif kind == "trace":
             ix = gen.rand_index(rng, sym)
-            a = gen.rand_array(rng, sym, indices=[ix, ix.conj()], static=static, dtype=dtype, keep=keep,
-                               charge=gen.py_combine(sym, []) if rng.random() < 0.5 else None)
+            if rng.random() < 0.3:
+                # the SAME index object on both traced axes (same direction): the diagonal sectors (c, c) then
+                # carry the charge of c combined with itself, which is not the identity for U1 / U1U1 / Z4
+                a = gen.rand_array(rng, sym, indices=[ix, ix], static=static, dtype=dtype, keep=keep)
+                if a.blocks is not None and rng.random() < 0.7:
+                    c = rng.choice(sorted(ix.chargemap))
+                    a = gen.rand_array(rng, sym, indices=[ix, ix], static=static, dtype=dtype, keep=1.0,
+                                       charge=gen.py_sector_charge(sym, (c, c), [ix.dual, ix.dual]))
+                meta["same_object_axes"] = True
+            else:
+                a = gen.rand_array(rng, sym, indices=[ix, ix.conj()], static=static, dtype=dtype, keep=keep,
+                                   charge=gen.py_combine(sym, []) if rng.random() < 0.5 else None)
             entry = rng.choice(["method", "function", "autoray"])
             steps = [{"out": ["t"], "op": "trace", "in": ["a"], "params": {}}]
             env = {"a": a}
